@@ -742,7 +742,7 @@ impl Property for C08 {
     fn cases_per_shard(&self, tier: Tier) -> u32 {
         match tier {
             Tier::Quick => 700,
-            Tier::Thorough => 3_000,
+            Tier::Thorough => 2_000,
         }
     }
 
